@@ -9,6 +9,12 @@ LEVEL_NOTE = ("Trusted base: clang 14 front end and CFG builder, the gsa-extract
               "Assumes the shipped configuration (GALOIS_USE_LONGJMP_ABORT, NDEBUG).")
 
 CHECKS = {
+    "C17": ("narrow: wire-trace equality of the write and the read side of every serialisable type family (raw runs with "
+            "byte-count polynomials, user hooks, nested calls expanded recursively, loops), overload bijection, target overwrite "
+            "and framing rules over Serialize.h; NetworkBuffered length-prefix width at all six sites, FIFO queue discipline, "
+            "lock typestate, tag/phase agreement; HostFence send-flush-receive-bump order. Delivery exactly-once/in-order through "
+            "MPI, alignment fast-path values and aggregation timing are not decided.",
+            "sibling wire-grammar comparison, CFG ordering and lock typestate rules over clang AST/CFG facts", "4 C17"),
     "C12": ("narrow: symbolic byte-offset interpretation of every .gr layout site (FileGraph fromMem/fromArrays/partFromFile/"
             "rawBlockSize, FileGraphWriter, OCFileGraph, OfflineGraph reader and writer, BufferedGraph, LC_CSR_Graph reader, "
             "dist-graph-convert) for both format versions and both parities of the edge count against the canonical layout; "
